@@ -656,7 +656,7 @@ public final class Driver {
                 // one-shot: the next DEC starts after this many bytes of its input have been read
                 skip = toks.length > 2 ? Integer.parseInt(toks[2]) : 0;
                 out.append("OK ").append(id).append('\n');
-            } else if (cmd.equals("ENC")) {
+            } else if (cmd.equals("ENC") || cmd.equals("ENCX")) {
                 Object obj = build(new Cursor(toks, 2), Object.class, "?");
                 if (obj == null) {
                     throw new Unsupported("syntax nil root");
@@ -667,6 +667,11 @@ public final class Driver {
                 }
                 pre = null;
                 call(obj, "encode", buf);
+                if (cmd.equals("ENCX")) {
+                    // the same object encoded a second time, into a fresh buffer
+                    buf = Unpooled.buffer();
+                    call(obj, "encode", buf);
+                }
                 out.append("ENC ").append(id).append(' ');
                 written(out, buf);
                 out.append('\n');
